@@ -28,7 +28,8 @@ pub fn attrs_clone(a: &Vec<Attribute>) -> (r: Vec<Attribute>) ensures r@ == a@ {
 #[derive(PartialEq, Eq, Clone, Copy, Structural)]
 pub enum QuirksMode { Quirks, LimitedQuirks, NoQuirks }
 pub use QuirksMode::Quirks;
-pub struct TreeBuilderOpts { pub exact_errors: bool, pub scripting_enabled: bool, pub iframe_srcdoc: bool, pub drop_doctype: bool }
+#[derive(Clone, Copy)]
+pub struct TreeBuilderOpts { pub exact_errors: bool, pub scripting_enabled: bool, pub iframe_srcdoc: bool, pub drop_doctype: bool, pub quirks_mode: QuirksMode }
 pub struct Cow { pub x: u8 }
 impl Cow {
     #[verifier::external_body]
@@ -60,6 +61,7 @@ pub enum DomOp {
     AssociateWithForm(Handle, Handle, Handle, Option<Handle>),
     AttachShadow(Handle, Handle, Seq<Attribute>),
 }
+pub uninterp spec fn doc_of(s: Sink) -> Handle;
 /// the handle the sink hands out for the k-th element it creates (ASSUMED: a new one each time)
 pub open spec fn fresh_handle(k: nat) -> Handle { Handle { id: Ghost(k) } }
 /// the name of an element as the sink reports it (ASSUMED: a function of the handle)
@@ -107,6 +109,9 @@ impl Sink {
     pub fn add_attrs_if_missing(&mut self, target: &Handle, attrs: Vec<Attribute>) ensures *final(self) == (Sink { dom: Ghost(old(self).dom@.push(DomOp::AddAttrsIfMissing(*target, attrs@))), ..*old(self) }) { unimplemented!() }
     #[verifier::external_body]
     pub fn maybe_clone_an_option_into_selectedcontent(&mut self, option: &Handle) ensures *final(self) == (Sink { dom: Ghost(old(self).dom@.push(DomOp::MaybeCloneOption(*option))), ..*old(self) }) { unimplemented!() }
+    /// the document node (ASSUMED: a function of the sink)
+    #[verifier::external_body]
+    pub fn get_document(&self) -> (r: Handle) ensures r == doc_of(*self) { unimplemented!() }
     #[verifier::external_body]
     pub fn mark_script_already_started(&mut self, node: &Handle) ensures *final(self) == (Sink { dom: Ghost(old(self).dom@.push(DomOp::MarkScriptAlreadyStarted(*node))), ..*old(self) }) { unimplemented!() }
     #[verifier::external_body]
